@@ -6478,12 +6478,16 @@ class QueryResult(object):
         return self._get_items() >= self._other_items(other)
     def __reversed__(self):
         return reversed(self._get_items())
+    def _get_own_items(self):
+        # the list of items is shared with the query result cache of the session and should not be changed in place
+        items = self._items = list(self._get_items())
+        return items
     def reverse(self):
-        self._get_items().reverse()
+        self._get_own_items().reverse()
     def sort(self, *args, **kwargs):
-        self._get_items().sort(*args, **kwargs)
+        self._get_own_items().sort(*args, **kwargs)
     def shuffle(self):
-        shuffle(self._get_items())
+        shuffle(self._get_own_items())
     @cut_traceback
     def show(self, width=None, stream=None):
         if stream is None:
